@@ -12,7 +12,10 @@ from its queue, any timer firing, the shutdown being seen, the tee dropping.
 -/
 import SerfProofs.Lemmas.Pipeline
 import SerfProofs.Lemmas.PipelineLast
+import SerfProofs.Lemmas.PipelineDrain
 import SerfModel.Gen.MemberLocks
+import SerfProofs.Props.C17
+import SerfProofs.Props.C18
 namespace SerfProofs.C16
 open SerfModel SerfModel.MemberCoalesce SerfModel.Pipeline SerfProofs.Pipeline
 
@@ -108,6 +111,48 @@ theorem C16_exact_without_coalescing (snap ucoal : Bool) (emitted : List PEv) (s
   simp only [runPipeline] at e2 ⊢
   rw [← e2, e1, h0]
 
+/-! ### No stale last word: the hypotheses of `C16_last_matches` are always attainable -/
+
+/-- **The pipeline can always be drained.** After ANY loss-free schedule (any interleaving, any
+flush placement, anything still in flight) there is a loss-free continuation — the handlers send
+what is left, every stage takes what is queued (upstream first) and its quiescent timer fires —
+after which nothing is in flight. -/
+theorem C16_can_always_drain (cfg : Cfg) (emitted : List PEv) (sched : List Step)
+    (hloss : sched.all (fun x => !x.isLoss) = true) :
+    ∃ more : List Step, more.all (fun x => !x.isLoss) = true ∧
+      (runPipeline cfg emitted (sched ++ more)).drained = true := by
+  have hr := run_ready sched (initPipe cfg emitted) (stagesOf_ready cfg) hloss
+  refine ⟨drainSteps (runPipeline cfg emitted sched), drainSteps_lossless _, ?_⟩
+  simp only [runPipeline, List.foldl_append]
+  exact drainSteps_drained _ hr
+
+/-- **No stale last word, end to end.** For every configuration, every history of events and every
+loss-free schedule so far, letting the pipeline run dry leaves the application with, for EVERY
+member, a last event whose kind is the kind of the latest event emitted for that member — through
+tee, internal-query filter, user coalescer and member coalescer, whatever was suppressed or
+merged on the way. -/
+theorem C16_no_stale_last_word (cfg : Cfg) (emitted : List PEv) (sched : List Step)
+    (hloss : sched.all (fun x => !x.isLoss) = true) :
+    ∃ more : List Step, more.all (fun x => !x.isLoss) = true ∧
+      ∀ m, lastKind m (runPipeline cfg emitted (sched ++ more)).recv = lastKind m emitted := by
+  obtain ⟨more, h1, h2⟩ := C16_can_always_drain cfg emitted sched hloss
+  refine ⟨more, h1, fun m => C16_last_matches cfg emitted (sched ++ more) m ?_ h2⟩
+  simp only [List.all_append, Bool.and_eq_true]
+  exact ⟨hloss, h1⟩
+
+/-- **Every split into quanta.** Cut the history into consecutive quanta of ANY sizes `ns`
+(`ns.sum = emitted.length`); per quantum the handlers send its events and the pipeline runs dry
+(so the coalescers flush once per quantum).  Then for every member the last event delivered has
+the kind of the latest event of the whole history. -/
+theorem C16_quanta_last_word (cfg : Cfg) (emitted : List PEv) (ns : List Nat) (hsum : ns.sum = emitted.length)
+    (m : String) :
+    lastKind m (runPipeline cfg emitted (quantaSched (initPipe cfg emitted) ns)).recv = lastKind m emitted := by
+  apply C16_last_matches cfg emitted _ m (quantaSched_lossless ns _)
+  have hidle : (initPipe cfg emitted).stages.all stageIdle = true := by
+    cases cfg with
+    | mk a b c => cases a <;> cases b <;> cases c <;> rfl
+  exact quantaSched_drained ns (initPipe cfg emitted) (stagesOf_ready cfg) hidle hsum
+
 /-! ### Tie of the premise "emitted history = order of the status changes" to the source
 
 The theorems above take the emitted history as given.  It is ordered like the status changes of
@@ -134,6 +179,20 @@ theorem C16_status_handlers_send_under_lock :
 example : SerfModel.MemberLocks.allSendsUnderLock
     [{ name := "handleNodeLeave", sends := 1, lockCall := "Lock", shape := "other", earlyUnlock := false,
        sendsInside := false, callSites := [] }] = false := by decide
+
+/-- The coalescer stages of the pipeline model are the source's: the member coalescer stores
+unconditionally and suppresses by the source's guard (C17 ties), and both coalescer stages run
+the source's `coalesceLoop` (C18 tie) — so an edit to serf/coalesce_member.go or serf/coalesce.go
+reaches this property's obligations as well. -/
+theorem C16_coalescer_stages_are_the_source :
+    (∀ ok previous cur, SerfModel.Gen.Coalescers.memberSuppressCond.eval SerfModel.CoalesceShapes.kindOps
+        (SerfModel.CoalesceShapes.memberEnvB ok) (SerfModel.CoalesceShapes.memberEnvV previous cur) =
+        some (ok && previous == cur && cur != .update)) ∧
+    SerfModel.Gen.Coalescers.memberCoalesceLoopBody =
+      ["c.latestEvents[m.Name] = coalesceEvent{Type: e.Type, Member: &m}"] ∧
+    SerfModel.Gen.Coalescers.loopFlush = ["c.Flush(outCh)", "if !shutdown { goto INGEST }"] :=
+  ⟨SerfProofs.C17.C17_suppress_cond_tie, SerfProofs.C17.C17_coalesce_stores_unconditionally.2,
+   SerfProofs.C18.C18_loop_shape.2.2.1⟩
 
 /-! ### Non-vacuity: a run through all four stages with coalescing, a drop and a suppression -/
 
@@ -166,5 +225,32 @@ example :
       [.emit, .emit, .at 1 .take, .at 1 .drop, .at 0 .take]).recv = some .join ∧
     (runPipeline ⟨true, false, false⟩ [.member ⟨.join, "a", 1⟩, .member ⟨.failed, "a", 2⟩]
       [.emit, .emit, .at 1 .take, .at 1 .drop, .at 0 .take]).drained = true := by decide
+
+-- C16_quanta_last_word on a concrete history, split 2+0+3, all stages on: a flap merged, a repeat suppressed
+example :
+    (runPipeline ⟨true, true, true⟩
+        [.member ⟨.join, "a", 1⟩, .member ⟨.join, "b", 2⟩, .member ⟨.failed, "a", 3⟩, .member ⟨.join, "a", 4⟩,
+         .member ⟨.leave, "b", 5⟩]
+        (quantaSched (initPipe ⟨true, true, true⟩
+          [.member ⟨.join, "a", 1⟩, .member ⟨.join, "b", 2⟩, .member ⟨.failed, "a", 3⟩, .member ⟨.join, "a", 4⟩,
+           .member ⟨.leave, "b", 5⟩]) [2, 0, 3])).recv
+      = [.member ⟨.join, "a", 1⟩, .member ⟨.join, "b", 2⟩, .member ⟨.leave, "b", 5⟩] := by decide
+
+-- "loss-free" cannot be dropped from C16_last_matches for the shutdown case either: a member
+-- coalescer that returned (shutdown) swallows what is sent to it afterwards
+example :
+    let emitted : List PEv := [.member ⟨.join, "a", 1⟩, .member ⟨.failed, "a", 2⟩]
+    let sched : List Step := [.emit, .at 1 .take, .at 0 .take, .at 0 .shutdown, .emit, .at 1 .take, .at 0 .take]
+    (runPipeline ⟨false, false, true⟩ emitted sched).drained = true ∧
+      lastKind "a" (runPipeline ⟨false, false, true⟩ emitted sched).recv = some .join ∧
+      lastKind "a" emitted = some .failed := by decide
+
+-- "drained" cannot be dropped: while the coalescer still holds the newer event the last word is old
+example :
+    let emitted : List PEv := [.member ⟨.join, "a", 1⟩, .member ⟨.failed, "a", 2⟩]
+    let sched : List Step := [.emit, .at 1 .take, .at 0 .take, .at 0 .quantum, .emit, .at 1 .take, .at 0 .take]
+    sched.all (fun x => !x.isLoss) = true ∧
+      (runPipeline ⟨false, false, true⟩ emitted sched).drained = false ∧
+      lastKind "a" (runPipeline ⟨false, false, true⟩ emitted sched).recv = some .join := by decide
 
 end SerfProofs.C16
